@@ -105,6 +105,7 @@ def run(ctx):
             else:
                 # PT-TEMPO in a rotated basis, the tensor exported and imported again before compute_dynamics
                 vs.append({"sysmode": "td", "rot": "haar", "pt_roundtrip": ("simple", "file")[(idx // 5) % 2]})
+                vs.append({"sysmode": "td", "rot": "haar", "peek_raw": True})     # the raw tensors are looked at before use
         if case["K"] != eng.KNONE and idx % 3 == 2:
             # memory given as tcut = K * dt with a decimal dt (the quotient tcut / dt is not an integer in floating point):
             # both methods must still keep exactly K steps of memory
